@@ -37,6 +37,7 @@ def analyse(name, cases, lines, nex=3):
     only = collections.Counter()
     ex = {}
     rej = 0
+    raw = []
     for (d, t), a in zip(cases, lines):
         if not a.startswith("OK"):
             rej += 1
@@ -50,6 +51,7 @@ def analyse(name, cases, lines, nex=3):
                 continue
             rs = [generalise(r) for r in rs.split("|") if r]
             rs = list(dict.fromkeys(rs))
+            raw.append([d, t if len(js) == 1 else "(one of %d statements) " % len(js) + t, k, v, rs])
             lvl = "token" if v == "-" else "text"
             if rs:
                 first[(lvl, rs[0])] += 1
@@ -64,7 +66,31 @@ def analyse(name, cases, lines, nex=3):
     rows = [{"level": l, "reason": r, "statements_with_it": c, "first_reason_of": first[(l, r)], "only_reason_of": only[(l, r)], "examples": ex.get((l, r), [])}
             for (l, r), c in anyr.most_common()]
     return {"stream": name, "texts": len(cases), "rejected_by_the_model": rej, "statements": n, "X": tot["X"], "T": tot["T"], "outside": tot["-"],
-            "by_statement_class": {k: dict(v) for k, v in kinds.items()}, "reasons": rows}
+            "by_statement_class": {k: dict(v) for k, v in kinds.items()}, "reasons": rows,
+            "what_if": what_if(raw), "raw": raw}
+
+
+GROUPS = [
+    ("alias", lambda r: "alias-not-bare" in r),
+    ("literal", lambda r: r.startswith("literal.no-LITERAL-mark=") and r.split("=")[1] in ("decimal", "hex", "bit")),
+    ("with-inside", lambda r: "WITH-inside" in r),
+    ("special-fn", lambda r: "name-is-special" in r),
+    ("index-base", lambda r: r.startswith("index.base-is")),
+    ("exists-left", lambda r: "left-is-EXISTS" in r),
+    ("in>20", lambda r: r.startswith("in.value>20")),
+]
+
+
+def what_if(raw):
+    """how many statements outside the token-level fragment would fall inside if the reasons of the first k groups were removed (cumulative), and of each group alone"""
+    out = []
+    outside = [x for x in raw if x[3] == "-"]
+    for k in range(1, len(GROUPS) + 1):
+        fs = [f for _, f in GROUPS[:k]]
+        cum = sum(1 for x in outside if all(any(f(r) for f in fs) for r in x[4]))
+        alone = sum(1 for x in outside if all(GROUPS[k - 1][1](r) for r in x[4]))
+        out.append({"group": GROUPS[k - 1][0], "alone": alone, "cumulative_with_the_groups_above": cum, "of_outside": len(outside)})
+    return out
 
 
 def gen_cases(seed, n):
@@ -101,6 +127,7 @@ def main():
             r["stream"], r["texts"], r["rejected_by_the_model"], r["statements"], r["X"], 100.0 * r["X"] / max(1, r["statements"]),
             r["T"], 100.0 * r["T"] / max(1, r["statements"]), r["outside"], 100.0 * r["outside"] / max(1, r["statements"])))
         print("   by class:", json.dumps(r["by_statement_class"], sort_keys=True))
+        print("   what if:", json.dumps(r["what_if"]))
         print("   %-6s %6s %6s %6s  %s" % ("level", "any", "first", "only", "reason"))
         for row in r["reasons"][:a.top]:
             print("   %-6s %6d %6d %6d  %s" % (row["level"], row["statements_with_it"], row["first_reason_of"], row["only_reason_of"], row["reason"]))
